@@ -436,8 +436,8 @@ pub fn scenarios(ctx: &Ctx) -> Vec<Scenario> {
         v.push(Scenario::WaitersAndRefill { size, waiters: 2 });
     }
     if thorough {
+        // (size 2 with 3 waiters is 8.8 million executions / 15 min at bound 3: left out)
         v.push(Scenario::WaitersAndRefill { size: 1, waiters: 3 });
-        v.push(Scenario::WaitersAndRefill { size: 2, waiters: 3 });
         for size in [1usize, 2] {
             for w1 in WAYS {
                 for w2 in WAYS {
@@ -606,8 +606,11 @@ fn account(rep: &mut Report, found: &mut Findings, sc: &Scenario, bound: usize, 
 }
 
 pub fn explore(ctx: &Ctx, rep: &mut Report, found: &mut Findings) {
+    let t0 = std::time::Instant::now();
     let bound = preemption_bound(ctx);
-    let scs = scenarios(ctx);
+    let mut scs = scenarios(ctx);
+    // longest first, so that the slowest scenario does not start last
+    scs.sort_by_key(|s| !matches!(s, Scenario::WaitersAndRefill { waiters: 3, .. }));
     let results = par_map(&scs, ctx.threads(), |_, sc| spawn_child(ctx, sc, bound));
     let mut per_scenario = vec![];
     let mut total_exec = 0u64;
@@ -648,6 +651,7 @@ pub fn explore(ctx: &Ctx, rep: &mut Report, found: &mut Findings) {
             "scenarios": scs.len(),
             "executions": total_exec,
             "slowest_scenario_s": (slowest * 100.0).round() / 100.0,
+            "wall_s": (t0.elapsed().as_secs_f64() * 100.0).round() / 100.0,
             "per_scenario": per_scenario,
         }),
     );
